@@ -261,3 +261,61 @@ func VerifC09_Twin() {
 // larger bounds for the thorough tier
 func VerifC09_Hist8()       { verifC09Hist(8, false) }
 func VerifC09_HistResend6() { verifC09Hist(6, true) }
+
+// VerifC09_Siblings: two series of ONE name (tag keys "" and "t:1") of a symbolic type with
+// independent symbolic timestamps, any expiry: after Flush + Reset each sibling is kept or
+// removed by its OWN timestamp - one series expiring must not take the other with it, nor
+// keep it alive.
+func VerifC09_Siblings() {
+	typ := nondetIntIn(0, 3)
+	e := nondetInt64()
+	a := NewMetricAggregator(nil, time.Duration(e), time.Duration(e), time.Duration(e), time.Duration(e), gostatsd.TimerSubtypes{}, 0)
+	now := nondetInt64In(0, verifTmax-1)
+	a.now = func() time.Time { return time.Unix(0, now) }
+	var ts [2]int64
+	keys := []string{"", "t:1"}
+	for i := range ts {
+		ts[i] = nondetInt64In(0, verifTmax-1)
+		verifAssume(ts[i] <= now)
+	}
+	switch typ {
+	case 0:
+		a.metricMap.Counters["k"] = map[string]gostatsd.Counter{}
+	case 1:
+		a.metricMap.Gauges["k"] = map[string]gostatsd.Gauge{}
+	case 2:
+		a.metricMap.Timers["k"] = map[string]gostatsd.Timer{}
+	default:
+		a.metricMap.Sets["k"] = map[string]gostatsd.Set{}
+	}
+	for i, k := range keys {
+		t := gostatsd.Nanotime(ts[i])
+		switch typ {
+		case 0:
+			a.metricMap.Counters["k"][k] = gostatsd.Counter{Value: 1, Timestamp: t}
+		case 1:
+			a.metricMap.Gauges["k"][k] = gostatsd.Gauge{Value: 1, Timestamp: t}
+		case 2:
+			a.metricMap.Timers["k"][k] = gostatsd.Timer{Values: []float64{}, Timestamp: t}
+		default:
+			a.metricMap.Sets["k"][k] = gostatsd.Set{Values: map[string]struct{}{}, Timestamp: t}
+		}
+	}
+	a.Flush(10 * time.Second)
+	a.Reset()
+	for i, k := range keys {
+		present := false
+		switch typ {
+		case 0:
+			_, present = a.metricMap.Counters["k"][k]
+		case 1:
+			_, present = a.metricMap.Gauges["k"][k]
+		case 2:
+			_, present = a.metricMap.Timers["k"][k]
+		default:
+			_, present = a.metricMap.Sets["k"][k]
+		}
+		verifAssert(present == !verifExpiredSpec(e, now, ts[i]), "a series is kept or removed by its own last datapoint, whatever happens to another tag set of the same name")
+	}
+	verifReach("siblings")
+}
